@@ -71,6 +71,20 @@ impl CmdSet for Mixed {
         &["set-all", "set", "жа", "жб", "h", "help-me", "s", "中文", "😀x"];
 }
 
+/// the name set of the small design-level models (MC_Cli, NameSet = "tiny")
+#[derive(Command)]
+pub enum Tiny {
+    Ab,
+    #[command(name = "aé")]
+    Ae,
+    B,
+}
+
+impl CmdSet for Tiny {
+    const ID: &'static str = "tiny";
+    const NAMES: &'static [&'static str] = &["ab", "aé", "b"];
+}
+
 #[derive(Command)]
 #[command(help_title = "Base")]
 pub enum Base {
@@ -121,9 +135,13 @@ macro_rules! with_set {
                 type $S = $crate::sets::Grouped;
                 $body
             }
+            "tiny" => {
+                type $S = $crate::sets::Tiny;
+                $body
+            }
             other => panic!("unknown command set {other}"),
         }
     };
 }
 
-pub const SET_IDS: &[&str] = &["raw", "leds", "mixed", "grouped"];
+pub const SET_IDS: &[&str] = &["raw", "leds", "mixed", "grouped", "tiny"];
